@@ -1034,3 +1034,60 @@ SET_BY_NAME = Contract(
     raise_ensures={'PyAsn1Error': ['not known ==> self.args is None']},
     may_raise={'PyAsn1Error': True})
 CONTRACTS = CONTRACTS + [GET_BY_NAME, SET_BY_NAME]
+
+
+# ==== CHOICE with any number of alternatives: at most one slot is occupied, and it is the selected one ==========================
+CH_N = z3.Int('choice.N')
+CH_CUR = z3.Int('choice.cur')
+CH_SLOTS = z3.Const('choice.slots0', IntMap)
+CH_HAS = z3.Bool('choice.hasSelection')
+
+
+def _single(ids, n, cur, has):
+    """slots other than the selected one are empty (noValue)"""
+    return ForAll([_k], Implies(And(_k >= 0, _k < n, Or(Not(has), _k != cur)), Select(ids, _k) == NOV))
+
+
+def _choice_self(ex, env):
+    has = ex.choose(CH_HAS, 'has-selection')
+    lst = sym_list(CH_N, CH_SLOTS, name='_componentValues')
+    ex.assume(And(CH_N >= 1, _single(CH_SLOTS, CH_N, CH_CUR, z3.BoolVal(bool(has)))))
+    if has:
+        ex.assume(And(CH_CUR >= 0, CH_CUR < CH_N))
+    return Obj('Choice', {'_currentIdx': CH_CUR if has else None, '_componentValues': lst, '_componentTypeLen': CH_N}, name='self')
+
+
+def _set_set_component(ex, self, idx, value=NOVALUE, *a, **k):
+    """callee contract SequenceAndSetBase.setComponentByPosition[declared,...] (proved above): the value is stored in the slot
+    of the position (python list index), every other slot keeps what it had; or a library / lookup error and no change"""
+    if ex.choose(ex.fresh('Set.setComponentByPosition.raises', BoolSort()), 'set-raises'):
+        raise _Raise(ExcV('PyAsn1Error'))
+    lst = self.fields['_componentValues']
+    lst.methods['__setitem__'](ex, lst, idx, value)        # IndexError outside -N..N-1
+    return self
+
+
+CHOICE_SET_N = record_contract(
+    id='type.univ::Choice.setComponentByPosition[any-number-of-alternatives]', qual='Choice.setComponentByPosition',
+    properties=['C19', 'C04'],
+    params=dict(self=PDerived(_choice_self), idx=PInt(), value=PConst(NEW_VALUE), verifyConstraints=PConst(True),
+                matchTags=PConst(True), matchConstraints=PConst(True)),
+    globals=dict(GR, Set={'setComponentByPosition': FnV(_set_set_component, 'Set.setComponentByPosition'), '__name__': 'Set'},
+                 N=CH_N, has=CH_HAS, cur=CH_CUR, value=NEW_VALUE,
+                 single=FnV(lambda ex, s: _single(s.fields['_componentValues'].fields['ids'], CH_N,
+                                                  toint(s.fields['_currentIdx']) if s.fields['_currentIdx'] is not None else IntVal(-1),
+                                                  z3.BoolVal(s.fields['_currentIdx'] is not None)), 'single'),
+                 slot=FnV(lambda ex, s, k: Select(s.fields['_componentValues'].fields['ids'], toint(k)), 'slot'),
+                 same_slots=FnV(lambda ex, s: And(s.fields['_componentValues'].fields['ids'] == CH_SLOTS,
+                                                  s.fields['_componentValues'].fields['length'] == CH_N), 'same_slots')),
+    ensures=[('selected-in-non-negative-form', 'self._currentIdx == (old(idx) if old(idx) >= 0 else old(idx) + N) and '
+                                               'self._currentIdx >= 0 and self._currentIdx < N'),
+             ('holds-the-value', 'slot(self, self._currentIdx) == idof(value)'),
+             ('at-most-one-alternative', 'single(self)'),
+             ('returns-self', 'result is self')],
+    # a refused assignment changes nothing: neither the slots nor the selection
+    raise_ensures={'PyAsn1Error': ['same_slots(self)', '(self._currentIdx is None) == (not has)', 'has ==> self._currentIdx == cur'],
+                   'IndexError': ['same_slots(self)', '(self._currentIdx is None) == (not has)', 'has ==> self._currentIdx == cur']},
+    may_raise={'PyAsn1Error': True, 'IndexError': True},
+    note='Set.setComponentByPosition is the callee contract; the slots are a python list of one entry per alternative')
+CONTRACTS = CONTRACTS + [CHOICE_SET_N]
